@@ -183,7 +183,7 @@ pub fn property() -> Property {
         parts: vec![Box::new(GenPart {
             name: "streams",
             rule: "see property rule",
-            cases: (1_500_000, 8_000_000),
+            cases: (1_500_000, 40_000_000),
             fuzz_decode: Some(crate::fuzzdec::c01_case),
             strategy,
             check,
